@@ -140,13 +140,15 @@ func (e *XElem) walk(f func(*XElem)) {
 
 // ---- generators ----
 
-var xmlNames = []string{"a", "b", "c", "d", "A", "B", "item", "Item", "x-y", "x_y", "X-Y", "n1", "long-name-here", "Élan", "élan", "Ñu", "ñu"}
+// incl. the names of HTML void elements (link, br, img, meta, hr, input): ordinary names in XML
+var xmlNames = []string{"a", "b", "c", "d", "A", "B", "item", "Item", "x-y", "x_y", "X-Y", "n1", "long-name-here", "Élan", "élan", "Ñu", "ñu", "link", "br", "img", "META", "hr", "input"}
 var nsPrefixes = []string{"", "", "", "ns", "p", "n-s"}
 
 // hostile value alphabet (section 3.1 of DESIGN.md); no carriage return
 var textAlphabet = []string{"a", "b", "Z", "1", "0", ".", "-", "+", "e", " ", " ", "\t", "\n", "&", "<", ">", "\"", "'", "é", "世",
 	"true", "false", "TRUE", "t", "NaN", "Inf", "1.5", "1e3", "0x1p-2", "&amp;", "&#x41;", "&lt;", "]]>", "]]", "<![CDATA[", "#", ":", "{", "}", "[", "]", "\\", "\\u003c", "=", "/", "<!--", "?>", "\u00a0", "\u3000", "\u2003", "\u0085", "\u00a0",
-	"\U0001F600", "e\u0301", "\u2028", "\u2029", "\ufeff", "\U00010000", "\ufffd"}
+	"\U0001F600", "e\u0301", "\u2028", "\u2029", "\ufeff", "\U00010000", "\ufffd",
+	"%", "%d", "%s", "%%", "100%", "%!", "&nbsp;"[:0] + "nbsp"}
 
 func genText(t *rapid.T, label string) string {
 	n := rapid.IntRange(1, 6).Draw(t, label+"n")
